@@ -329,6 +329,16 @@ func (s *sessionController) onEnterLoadSessionCheck() {
 	}
 }
 
+// onRenegotiation is invoked when a further handshake starts on an established
+// connection. With a ClientHello built by Go's crypto/tls (HelloGolang) the
+// handshake enters conn.loadSession again, which offers no session while
+// renegotiating; that second call is legitimate.
+func (s *sessionController) onRenegotiation() {
+	if s.loadSessionTracker == CalledByGoTLS {
+		s.loadSessionTracker = NeverCalled
+	}
+}
+
 // onLoadSessionReturn is intended to be invoked upon returning from the `conn.loadSession` function.
 // It serves as a validation step for the correctness of the underlying utls implementation.
 // If the utls implementation is incorrect, this function will trigger a panic.
